@@ -39,6 +39,20 @@ func main() {
 		os.Exit(cmdCheck(os.Args[2:]))
 	case "replay":
 		os.Exit(cmdReplay(os.Args[2:]))
+	case "funcs":
+		// prints the declared module functions: the baseline the inliner compares with
+		repo := "/repo"
+		if len(os.Args) > 2 {
+			repo = os.Args[2]
+		}
+		p, err := an.Load(repo, nil, "")
+		if err != nil {
+			fmt.Fprintln(os.Stderr, "ERROR", err)
+			os.Exit(2)
+		}
+		for _, n := range p.DeclaredFuncNames() {
+			fmt.Println(n)
+		}
 	case "list":
 		var ids []string
 		for id := range props.Registry {
@@ -94,6 +108,7 @@ func cmdCheck(args []string) int {
 		fmt.Fprintln(os.Stderr, "ERROR", err)
 		return 2
 	}
+	an.BaselineFile = filepath.Join(*verif, "baseline_funcs.txt")
 	p, err := an.Load(*repo, overlay, *arch)
 	if err != nil {
 		fmt.Printf("ERROR property=%s cannot load %s: %v\n", *prop, *repo, err)
@@ -117,6 +132,16 @@ func cmdCheck(args []string) int {
 		defer os.RemoveAll(outDir)
 	}
 	extra := map[string]interface{}{"goarch": *arch, "positive_controls": props.SelfCheckCount}
+	if p.Inlined != nil {
+		extra["inlined_helper_call_sites"] = p.Inlined.Sites
+		if p.Inlined.Sites > 0 {
+			extra["inlined_helpers"] = p.Inlined.Callees
+			extra["inlined_into"] = p.Inlined.Changed
+		}
+		if len(p.Inlined.Kept) > 0 {
+			extra["helpers_not_or_not_only_inlined"] = p.Inlined.Kept
+		}
+	}
 	if es := os.Getenv("THUNDERLINT_EXTRA"); es != "" {
 		var m map[string]interface{}
 		if json.Unmarshal([]byte(es), &m) == nil {
@@ -149,8 +174,9 @@ func cmdCheck(args []string) int {
 func cmdReplay(args []string) int {
 	fs := flag.NewFlagSet("replay", flag.ExitOnError)
 	repo := fs.String("repo", "/repo", "repository to analyse")
-	fs.String("verif", "/verif", "")
+	verif := fs.String("verif", "/verif", "")
 	fs.Parse(args)
+	an.BaselineFile = filepath.Join(*verif, "baseline_funcs.txt")
 	if fs.NArg() != 1 {
 		usage()
 	}
